@@ -13,10 +13,21 @@ Model/ChordsV2Pinned.lean (used nowhere else).  Part 3 is the exact-set statemen
 -/
 import KVerif.Lemmas.ChordsV2Exact
 import KVerif.Model.ChordsV2Pinned
+import KVerif.Gen.ChordV2Consts
 namespace KVerif.C09
 open KVerif.L
 
 /-! ## 1. What holds of the fixed code, for all states -/
+
+/-- **chv2_consts_from_source**: the capacities the model uses, and the three code shapes the repaired
+behaviour rests on, are those of the source tree now (`KVerif.Gen.ChordV2Consts` is regenerated from
+/repo on every run). -/
+theorem chv2_consts_from_source :
+    SMOL_Q_LEN = Gen.CHV2_SMOL_Q_LEN ∧ DRAIN_Q_LEN = Gen.CHV2_DRAIN_Q_LEN ∧
+    ACTIVE_CHORDS_CAP = Gen.CHV2_ACTIVE_CAP ∧ QUEUE_SIZE = Gen.CHV2_QUEUE_SIZE ∧
+    Gen.CHV2_QUEUE_SIZE + Gen.CHV2_ACTIVE_CAP + 2 ≤ Gen.CHV2_DRAIN_Q_LEN ∧
+    Gen.CHV2_PRESS_LISTS_UNASSERTED = true ∧ Gen.CHV2_HANDOVER_BY_PUSH_BACK = true ∧
+    Gen.CHV2_COOLDOWN_EXTEND = true := by decide
 
 /-- **chord_v2_crash_sites** (full).  One tick of the chords-v2 machine, from ANY state, on any layer,
 either succeeds or fails at one of three bounded-queue assertions (more than 16 virtual-key events /
@@ -32,24 +43,58 @@ theorem chord_v2_crash_sites (s : ChV2) (layer : Nat) (c : Crash) (h : tickChv2 
     · rename_i c' he; cases h; exact Or.inl (clearReleased_err _ _ _ he)
     · cases h
 
+/-- **chord_v2_only_drain_queue_assert** (full; after the repair of the two press lists).  The two
+`debug_assert`s on the 16-slot press lists of `drain_releases` / `process_presses` - reachable on the
+pinned code with 17 presses queued between two ticks (debug builds panicked: `p a` x 17, tick) - are
+gone: the only remaining way for a tick of the chords-v2 machine to fail is the drain-queue assertion
+(more than 16 virtual-key events or released chords handed back in one tick). -/
+theorem chord_v2_only_drain_queue_assert (s : ChV2) (layer : Nat) (c : Crash) (h : tickChv2 s layer = .error c) :
+    c = crashDQ := by
+  unfold tickChv2 at h
+  simp only [] at h
+  split at h
+  · rename_i c' he; cases h; exact drainInputs_err_dq _ _ _ _ he
+  · split at h
+    · rename_i c' he; cases h; exact clearReleased_err _ _ _ he
+    · cases h
+
+/-- the pinned code: 17 presses queued between two ticks trip the `debug_assert` of `drain_releases`
+(reproduced on the real code in a debug build: chords v2 configured, `d:a` x 17, one tick); the
+repaired function keeps them all queued -/
+theorem press_list_debug_assert_pinned_counterexample :
+    Pinned.drainReleasesDbg (List.replicate 17 ⟨.press (0, 30), 0⟩) 0 [] [] = .error crashPR ∧
+    drainReleases (List.replicate 17 ⟨.press (0, 30), 0⟩) 0 [] [] =
+      .ok (List.replicate 17 ⟨.press (0, 30), 0⟩, [], []) := by
+  constructor <;> rfl
+
 /-- **chord_v2_no_capacity_crash** (full; the capacity theorem without hypothesis).  No state, no queue
-contents and no number of active chords makes the v2 machine, or the chords-v2 prologue of
-`Layout::tick`, stop with "active chords has room". -/
+contents and no number of active chords makes the v2 machine stop with "active chords has room"; and
+the chords-v2 prologue of `Layout::tick` fails only where the v2 machine does (the drain-queue
+assertion) or where the hand-over to the layout queue does - which, since the hand-over repair, is
+`Layout::event`'s own overflow path (waiting keys forced to hold, oldest event processed at once),
+no event is dropped. -/
 theorem chord_v2_no_capacity_crash :
     (∀ (s : ChV2) (layer : Nat), tickChv2 s layer ≠ .error (.indexOOB "active chords has room")) ∧
-    (∀ (s : LayoutV2), tickV2Pre s ≠ .error (.indexOOB "active chords has room")) := by
+    (∀ (s : LayoutV2) (c : Crash), tickV2Pre s = .error c →
+      c = crashDQ ∨ ∃ ch ch' dq, s.chv2 = some ch ∧ tickChv2 ch s.lay.currentLayer = .ok (ch', dq) ∧
+        handOver s.lay dq = .error c) := by
   have h1 : ∀ (s : ChV2) (layer : Nat), tickChv2 s layer ≠ .error (.indexOOB "active chords has room") := by
     intro s layer h
-    rcases chord_v2_crash_sites s layer _ h with e | e | e <;> simp [crashDQ, crashPR, crashTM] at e
+    have e := chord_v2_only_drain_queue_assert s layer _ h
+    simp [crashDQ] at e
   refine ⟨h1, ?_⟩
-  intro s h
+  intro s c h
   unfold tickV2Pre at h
   split at h
   · cases h
-  · split at h
-    · rename_i c he; cases h; exact h1 _ _ he
-    · simp only [] at h
-      split at h <;> cases h
+  · rename_i ch hch
+    split at h
+    · rename_i c' he; cases h; exact Or.inl (chord_v2_only_drain_queue_assert _ _ _ he)
+    · rename_i ch' dq hok
+      simp only [] at h
+      split at h
+      · rename_i c' he; cases h; exact Or.inr ⟨ch, ch', dq, hch, hok, he⟩
+      · split at h <;> cases h
 
 example : crashDQ ≠ .indexOOB "active chords has room" := by decide
 
@@ -281,7 +326,9 @@ theorem chord_v2_released_chord_leaves (s s' : ChV2) (layer : Nat) (dq : List Qu
         have := (List.mem_filter.mp ha2).2
         intro e; simp [e] at this
 
-/-- **chord_v2_unmatched_keys_are_forwarded** (full, for queues of at most 14 events).  Keys that do not
+/-- **chord_v2_unmatched_keys_are_forwarded** (full: for queues of at most 46 events, and the input
+queue holds 32; before the hand-over repair the hand-over queue had 16 slots and the 17th event of a
+cool-down tick was dropped - a lost release left a key down for good).  Keys that do not
 complete a chord are not swallowed.  (1) When the first pressed key is in no chord at all,
 `process_presses` changes nothing but starts the cool-down.  (2) A tick in the cool-down forwards the
 WHOLE v2 queue to the layout, first and in its original order (followed only by chords v2's own no-op
@@ -292,7 +339,7 @@ theorem chord_v2_unmatched_keys_are_forwarded :
     (∀ (s : ChV2) (layer : Nat) (ps : List Nat) (rf : Bool) (p1 : Nat),
       collectPresses s.queue [] = .ok (ps, rf) → ps.head? = some p1 → s.cfg.get p1 = none →
       processPresses s layer = .ok { s with ticksToIgnore := s.cfg.minIdle }) ∧
-    (∀ (s s' : ChV2) (layer : Nat) (dq : List Queued), s.ticksToIgnore > 0 → s.queue.length + 2 ≤ SMOL_Q_LEN →
+    (∀ (s s' : ChV2) (layer : Nat) (dq : List Queued), s.ticksToIgnore > 0 → s.queue.length + 2 ≤ DRAIN_Q_LEN →
       tickChv2 s layer = .ok (s', dq) →
       s'.queue = [] ∧ ∃ extra, dq = s.queue.map (fun (q : Queued) => { q with since := min (q.since + 1) U16_MAX }) ++ extra) := by
   refine ⟨?_, ?_⟩
@@ -308,17 +355,17 @@ theorem chord_v2_unmatched_keys_are_forwarded :
       cases h
       obtain ⟨_, hdq⟩ := clearReleased_ok _ _ _ _ hc
       refine ⟨rfl, ?_⟩
-      rw [hdq, foldl_smolPush_fits _ _ (by simp; omega)]
+      rw [hdq, drainExtend_fits _ _ (by simp; omega)]
       simp only [List.nil_append]
       generalize hQ : s.queue.map (fun (q : Queued) => { q with since := min (q.since + 1) U16_MAX }) = Q
-      have hQl : Q.length + 2 ≤ SMOL_Q_LEN := by rw [← hQ]; simpa using hlen
+      have hQl : Q.length + 2 ≤ DRAIN_Q_LEN := by rw [← hQ]; simpa using hlen
       split <;> (try split) <;>
         first
         | exact ⟨_, rfl⟩
-        | (rw [smolPush_fits Q _ (by omega)]
+        | (rw [drainPush_fits Q _ (by omega)]
            first
            | exact ⟨_, by rw [List.append_assoc]⟩
-           | (rw [smolPush_fits _ _ (by simp; omega)]
+           | (rw [drainPush_fits _ _ (by simp; omega)]
               exact ⟨_, by rw [List.append_assoc, List.append_assoc]⟩))
 
 /-! ## 2. The code before the fixes: pinned counterexamples (Model/ChordsV2Pinned.lean) -/
